@@ -9,11 +9,11 @@
 //! File contents are sequences of blocks of B bytes; block (s, i) of stream s is a fixed
 //! pseudo-random byte string, "Z" is the zero block. Contents cross the log as runs [s, i0, n].
 use std::collections::HashMap;
-use std::ffi::{CStr, CString};
+use std::ffi::CString;
 use std::fs::File;
 use std::io::{Read, Seek, SeekFrom, Write};
 use std::os::unix::ffi::OsStrExt;
-use std::os::unix::fs::{FileExt, MetadataExt, PermissionsExt};
+use std::os::unix::fs::{MetadataExt, PermissionsExt};
 use std::os::unix::io::FromRawFd;
 use std::panic::{catch_unwind, AssertUnwindSafe};
 use std::path::{Path, PathBuf};
